@@ -20,6 +20,19 @@ float vf_fir_data_only(float const * input) { (void)input; return 0; }
 int vf_kernel_none(stream_t * s, float * output, int olen) { (void)s; (void)output; (void)olen; return 0; }
 int vf_fade_kernel_none(stream_t * s, float const * vol, int step, float * output, int olen) { (void)s; (void)vol; (void)step; (void)output; (void)olen; return 0; }
 
+/* ---- DC-gain semantics of the coefficient tables (VF_OP 5): the table preparation records the gain it bakes into a table, a
+ * per-sample kernel returns "unit DC input x table" = that gain, the half-band IIR pair sums its two inputs (DC gain of each path 1).
+ * Substituted at goto level for prepare_coefs / poly_fir1_u / poly_fir1_d / half_iir1. ---- */
+static float vf_gain_u, vf_gain_d; static int vf_prepared;
+void vf_prepare_coefs_gain(float * coefs, int n, int phases0, int phases, float const * coefs0, double multiplier)
+{ (void)n; (void)phases0; (void)phases; (void)coefs0; ++vf_prepared; if (coefs == poly_fir_coefs_u) vf_gain_u = (float)multiplier; else vf_gain_d = (float)multiplier; }
+float vf_poly_fir1_u_dc(float const * input, uint32_t frac) { (void)input; (void)frac; return vf_gain_u; }
+float vf_poly_fir1_d_dc(float const * input, uint32_t frac) { (void)input; (void)frac; return vf_gain_d; }
+float vf_half_iir1_dc(half_iir_t * p, float in0, float in1) { (void)p; return in0 + in1; }
+#if !defined VF_NATIVE && VF_OP == 5
+double cos(double x) { return x == 0? 1. : .5; }      /* only fills fade_coefs (cross-fade weights: data, not used by this obligation); cos(0) == 1 marks the tables as initialised */
+#endif
+
 #ifndef VF_OP
 #define VF_OP 0
 #endif
@@ -169,6 +182,38 @@ VF_MAIN
     else VF_ASSERT(R.current.at.all == 2 * R.fadeout.at.all, "after a stage switch both streams read the same instant of the input (C16)");
   }
   (void)at0;
+#elif VF_OP == 5
+  /* C10: history independence of the process-wide VR coefficient tables.  Two engine instances are initialised by the real vr_init
+   * with gains multA and multB (io_spec.scale x datatype full-scale ratio, any values); then instance B produces one output frame
+   * through the real vr_process (B's FIFOs are replaced by statically allocated ones of the same content so that the symbolic execution sees
+   * constants).  With DC-gain semantics for the tables (above) that frame is exactly the gain instance B applies to a constant
+   * input: it must be B's own gain, whatever instance A asked for.
+   * VF_PATH 0: interpolating stream (stage -1: poly_fir_u), 1: decimating stream (stage 0: poly_fir_d + half-band IIR) */
+#ifndef VF_PATH
+#define VF_PATH 0
+#endif
+#ifndef VF_ASTAGES
+#define VF_ASTAGES VF_PATH
+#endif
+  IN_DBL(in_multA); IN_DBL(in_multB);
+  static rate_t A, B; static stage_t st[2]; static float b_m1[0x8000 / 4], b_0[0x8000 / 4], b_out[0x8000 / 4];
+  int odone; float want, got;
+  VF_ASSUME(in_multA >= 1. / 1099511627776. && in_multA <= 1099511627776. && in_multB >= 1. / 1099511627776. && in_multB <= 1099511627776.);    /* 2^-40 .. 2^40: normal floats */
+  vr_init(&A, 1., VF_ASTAGES, in_multA);       /* the earlier instance: with or without decimation stages (max. ratio <= 1 or > 1) */
+  vr_init(&B, 1., VF_PATH, in_multB);
+  st[0].fifo.data = (char *)b_m1; st[0].fifo.allocation = 0x8000; st[0].fifo.item_size = sizeof(float); st[0].step_mult = 2 * MULT32; st[0].preload = 0; st[0].is_fast = 1;
+  st[1].fifo.data = (char *)b_0; st[1].fifo.allocation = 0x8000; st[1].fifo.item_size = sizeof(float); st[1].step_mult = MULT32; st[1].preload = 2 * HALF_FIR_LEN_2; st[1].is_fast = 1;
+  st[1].fifo.end = (2 * HALF_FIR_LEN_2 + 272) * sizeof(float);
+  B.stages = st + 1;
+  B.output_fifo.data = (char *)b_out; B.output_fifo.allocation = 0x8000; B.output_fifo.item_size = sizeof(float); B.output_fifo.begin = B.output_fifo.end = 0;
+  B.default_io_ratio = 0;                                     /* ratio already set: ratio 1 in the stream's own units, mid-octave */
+  B.current.stage_num = VF_PATH? 0 : -1; enter_new_stage(&B, 0);
+  B.current.step.all = VF_PATH? ((int64_t)3 << 30) : ((int64_t)3 << 31); B.current.at.all = 0;
+  odone = vr_process(&B, 1);
+  VF_ASSERT(odone == 1, "one frame is produced");
+  got = b_out[0]; want = (float)in_multB;
+  VF_ASSERT(got >= want * (1 - 1e-6f) && got <= want * (1 + 1e-6f),
+      "an instance applies ITS OWN gain (io_spec.scale x datatype ratio), whatever gain an earlier instance was created with: process-wide tables do not leak one instance's settings into another (C10)");
 #endif
   VF_WITNESS();
 }
